@@ -1,5 +1,6 @@
 """C14 — malformed or hostile server input cannot corrupt or wedge a session."""
 from core import Check
+from props._session import SessionCheck, rpc_states
 from props import _framing as F
 from cases import framing_gen as G
 from oracle.framing_spec import expected, decode10, decode11, is_utf8
@@ -20,20 +21,24 @@ def accept_outcomes(base11, stream):
     return outs
 
 
-class C14(Check):
+class C14(SessionCheck):
     ID = 'C14'
     PROPS_MODULE = 'NcVerif.Props.C14'
     RULE = ('byte streams from a mutation grammar over valid frame sequences (drop/insert/flip a byte, chunk size +-1 / 0 / leading zero / '
             '20 digits, missing LF, end-of-chunks first, truncation anywhere, invalid UTF-8 and NUL inserted anywhere, garbage prefix, '
             'duplicated delimiter; 1-3 mutations) x random segmentations, both versions; plus bounded-exhaustive streams over the alphabet '
             '{LF # 1 2 0 ] > x C3 A9} (quick: length <= 5, thorough: <= 7) x {whole, every single cut}. Non-trivial = the reference decoder '
-            'finds a framing violation, an undecodable payload, or >= 1 payload; distinct by (version, reads).')
-    TRUST = ['the reference RFC 4742/6242 decoders in harness/oracle/framing_spec.py']
+            'finds a framing violation, an undecodable payload, or >= 1 payload; distinct by (version, reads). Plus lock-step session histories '
+            '(odd / hostile messages, faults) compared with Model/Session, with the stop invariant evaluated on the real objects.')
+    TRUST = SessionCheck.TRUST + ['the reference RFC 4742/6242 decoders in harness/oracle/framing_spec.py']
     ASSUMPTIONS = ['an undecodable payload may either end the session with an error or be dropped (the statement allows both)']
     _exh = 0
+    FLAVOR_WEIGHTS = {'odd': 5, 'fault': 3, 'normal': 1}
+    N_QUICK = 90
+    N_THOROUGH = 1500
 
     def cases(self, rng, tier):
-        out = []
+        out = SessionCheck.cases(self, rng, tier)
         n = 2500 if tier == 'quick' else 60000
         for _ in range(n):
             out.append(G.gen_hostile_case(rng))
@@ -52,15 +57,61 @@ class C14(Check):
         return out
 
     def run_impl(self, case):
+        if 'segs' not in case:
+            return SessionCheck.run_impl(self, case)
         return F.run_feed_impl(case)
 
     def model_lines(self, case):
+        if 'segs' not in case:
+            return SessionCheck.model_lines(self, case)
         return [F.feed_line(case)]
 
     def model_obs(self, case, outs):
+        if 'segs' not in case:
+            return SessionCheck.model_obs(self, case, outs)
         return F.parse_feed_out(outs[0])
 
+    def compare(self, case, io, mo):
+        if 'segs' not in case:
+            return SessionCheck.compare(self, case, io, mo)
+        return Check.compare(self, case, io, mo)
+
+    def shrink(self, case, still_fails):
+        if 'segs' not in case:
+            return SessionCheck.shrink(self, case, still_fails)
+        return case
+
+    def session_oracle(self, case, io):
+        """Whenever the worker has stopped, for whatever reason: disconnected, every request that existed is failed or answered;
+        messages the XML library cannot parse reach no request."""
+        obs = io['obs']
+        if not obs:
+            return None
+        info = case.get('info') or {}
+        stop = next((k for k, o in enumerate(obs) if o['pc'] == 'stopped'), None)
+        if stop is not None:
+            last = obs[-1]
+            closing_client = info.get('closed')
+            if obs[stop]['connected'] and not closing_client:
+                return ('C14:stopped-but-connected', 'the worker stopped but the session still reports connected')
+            failing_from = next((k for k, o in enumerate(obs) if o['pc'] in ('close', 'stopped')), stop)
+            for i, st in rpc_states(obs[stop]).items():
+                created = next(k for k, o in enumerate(obs) if i in rpc_states(o))
+                if st == 'W' and created < failing_from and io['req_status'][i - 1] in ('sent', 'trap'):
+                    return ('C14:pending-not-failed-at-stop', 'the worker stopped with request %d still waiting' % i)
+        # a request only ever completes with a well-formed reply carrying its id (never garbage as data)
+        for o in obs:
+            for i, st in rpc_states(o).items():
+                if st.startswith('R'):
+                    from core import unhexs
+                    raw = unhexs(st[1:])
+                    if 'rpc-reply' not in raw:
+                        return ('C14:non-reply-delivered', 'request %d was completed with %r' % (i, raw[:60]))
+        return None
+
     def oracle(self, case, io):
+        if 'segs' not in case:
+            return self.session_oracle(case, io)
         stream = F.stream_of(case)
         # the implementation stops reading at its first error; the bytes it has seen are a prefix
         seen = b''
@@ -75,6 +126,12 @@ class C14(Check):
         if got in ok:
             return None
         exp = ok[0]
+        if got[1] is None and exp[1] == 'FramingError' and got[0] == exp[0]:
+            # the error may be raised lazily, once the delimiter being read is complete - but then EVERY next byte must raise it
+            from impl.framing import feed_parser
+            if all(feed_parser(case['base11'], [bytes.fromhex(x) for x in case['segs']] + [b])['error'] == 'FramingError'
+                   for b in (b'\n', b'#', b'x', b'1')):
+                return None
         if got[1] is None and exp[1] == 'FramingError':
             return ('C14:stall-on-broken-framing', 'stream breaks 1.1 chunk framing but the parser neither raised nor can it ever deliver (stall)')
         if got[0] != exp[0][:len(got[0])] and got[0] != ok[1][0][:len(got[0])]:
@@ -82,15 +139,19 @@ class C14(Check):
         return ('C14:wrong-outcome', 'outcome %r, allowed %r' % ((len(got[0]), got[1]), [(len(a), b) for a, b in ok]))
 
     def nontrivial(self, case, io):
+        if 'segs' not in case:
+            return SessionCheck.nontrivial(self, case, io)
         stream = F.stream_of(case)
         payloads, status = (decode11 if case['base11'] else decode10)(stream)
         return bool(payloads) or status.startswith('bad')
 
     def search(self, tier, rng, broken):
-        return [G.gen_hostile_case(rng) for _ in range(10000)]
+        return [G.gen_hostile_case(rng) for _ in range(10000)] + SessionCheck.search(self, tier, rng, broken)
 
     def extra_coverage(self):
-        return {'bounded_exhaustive_streams': self._exh}
+        d = SessionCheck.extra_coverage(self)
+        d['bounded_exhaustive_streams'] = self._exh
+        return d
 
 
 CHECK = C14
